@@ -18,7 +18,7 @@ RULE = ("random real polynomial matrices A (Nch x Nch) and B (Nref x Nch) of ord
         "library's grid; oracle: Ad[n-1] equals the normalised true coefficients, column n-1 of the pole tables equals the stable roots of det A "
         "from an independent generalised eigenproblem, everything else NaN; per-call postconditions on rmfd2ac and pLSCF_poles also while pLSCF.run "
         "processes noisy data; non-trivial = at least one unstable and one stable root or n*Nch >= 4; distinct by (n,Nch,Nref,Nf,sgn,dt)")
-ASSUMPTIONS = ["tolerance 1e-8 * kappa (kappa = eigenvector condition of the block companion); kappa > 1e6 not judged; roots with |Re lambda| < 1e-9 |lambda| not judged",
+ASSUMPTIONS = ["tolerance 1e-8 * kappa (kappa = eigenvector condition of the block companion); kappa > 1e6 not judged; roots with |Re lambda| < max(1e-9, 10 tol) |lambda| not judged",
                "an exactly singular over-parameterised order (ordmax > n) may raise LinAlgError: that attempt is not judged and the case re-run with ordmax = n"]
 
 
@@ -53,9 +53,11 @@ def poly_roots(alpha):
     return w, kappa
 
 
-def stable_mapped(roots, dt):
+def stable_mapped(roots, dt, tol=0.0):
+    """continuous-time images of the roots; a root whose real part is smaller than ten times the accuracy the poles are judged with (tol,
+    relative) may come out on either side of the imaginary axis - whether it is kept is then not decidable at that accuracy"""
     lam = np.log(roots.astype(complex)) / dt
-    near_axis = np.abs(lam.real) < 1e-9 * np.abs(lam)
+    near_axis = np.abs(lam.real) < max(1e-9, 10 * tol) * np.abs(lam)
     return lam, near_axis
 
 
@@ -112,13 +114,13 @@ def check_poles_call(ctx, tag, Ad, Bn, dt, methodSy, nxseg, out):
         if not np.isfinite(kappa) or kappa > 1e6 or not np.all(np.isfinite(w)) or np.any(w == 0):
             ctx.not_judged("companion eigenvector condition > 1e6")
             continue
-        lam, near = stable_mapped(w, dt)
+        tol = 1e-8 * kappa
+        lam, near = stable_mapped(w, dt, tol)
         if near.any():
             ctx.not_judged("root within 1e-9 of the imaginary axis")
             continue
         keep = lam[lam.real <= 0]
         got = col[~np.isnan(col)]
-        tol = 1e-8 * kappa
         if methodSy == "cor":
             # exponential-window correction: a common real shift of every pole (its value is C08's business)
             if len(got) == len(keep) and len(got):
@@ -296,14 +298,14 @@ def run_rational(ctx, rng):
     # the statement's own clause: order n against the TRUE polynomial
     Fns, Xis, Phis, Lam = out
     ctx.ev("poles-at-order-n@pLSCF_poles")
-    lam, near = stable_mapped(roots, dt)
+    tol = max(1e-8 * kappa, 1e4 * kappa * dprobe)
+    lam, near = stable_mapped(roots, dt, tol)
     if near.any() or np.any(roots == 0):
         ctx.not_judged("root within 1e-9 of the imaginary axis")
     else:
         keep = lam[lam.real <= 0]
         col = Lam[:, n - 1]
         got = col[~np.isnan(col)]
-        tol = max(1e-8 * kappa, 1e4 * kappa * dprobe)
         if ctx.check(len(got) == len(keep), "truth:pole_count", lambda: f"order {n}: {len(got)} poles reported, {len(keep)} of {n*Nch} true roots are stable"):
             d = gen.multiset_dist(got, keep) if len(got) else 0.0
             ctx.maxi("poles-at-order-n: worst distance / (1e-8 kappa)", d / tol)
